@@ -465,6 +465,8 @@ def container_vspaces(ctx, world):
             k, v = x.args
             kb = k.fn.obj if k.op == "call" and k.fn.op == "attr" and k.fn.name == "keys" and not k.args else None
             vv = v.args[0] if v.op == "call" and v.fn.op == "ref" and v.fn.ref.qual.rsplit(".", 1)[-1] in ("list", "tuple") and len(v.args) == 1 else v
+            if is_call_to(v, "autograd.builtins.make_sequence") and len(v.args) == 2 and v.args[1].op == "star" and not v.kw:
+                vv = v.args[1].x  # autograd's list(xs) written out: make_sequence(list_, *xs)
             vb = vv.fn.obj if vv.op == "call" and vv.fn.op == "attr" and vv.fn.name == "values" and not vv.args else None
             ok = kb is not None and vb is not None and (kb is vb or same(kb, vb))
     n += 1
